@@ -295,6 +295,26 @@ ADDENDA = {
 }
 
 
+# what round 11 added
+ADDENDA11 = {
+    'C01': ' Nullkey family: every link population in which a referred-to instance nobody refers to holds the null of its key type '
+           "('' / unset unique_id / unique_id 0) beside a referring instance that refers to nothing.",
+    'C03': ' Directory trees with pattern characters and leading dots in their names.',
+    'C04': ' Eqchain family: where clauses of two or three equality terms on `selected` incl. one attribute constrained twice '
+           '(equal / different values, literals / variables, both operand orders) in select many / any / related by.',
+    'C07': ' Names family: every non-keyword token name of the grammar and 33 keyword-like names as identifier in fifteen name positions.',
+    'C08': ' Operation bodies whose keyword operators have operands with an effect are compared across spellings.',
+    'C11': ' Late family: the associations are defined and formalized by an operation of the history, after any mix of creations; '
+           'identifiers also cover referential attributes.',
+    'C12': ' The statement pool holds a class without attributes, associations to and from it, a row and an identifier of it.',
+    'C18': ' The chunks carry a two-attribute-key association; an identifier listing the referred attributes the other way round is '
+           'added to one built metamodel.',
+    'C20': ' A second data type under the name of an existing enumeration / user type is added in every other place.',
+}
+for _k, _v in ADDENDA11.items():
+    ADDENDA[_k] = ADDENDA.get(_k, '') + _v
+
+
 def main():
     props = [json.loads(l)['id'] for l in open(os.path.join(VERIF, 'properties.jsonl'))]
     checks = []
